@@ -6,12 +6,19 @@ SENT = 120
 FI = {96000: 0, 88200: 1, 64000: 2, 48000: 3, 44100: 4, 32000: 5, 24000: 6, 22050: 7, 16000: 8, 12000: 9, 11025: 10, 8000: 11}
 
 
+WBITS = {"rtsp": 32, "ps": 33, "cust": 0}
+
+
 def limbs(v):
-    return [(v >> 16) & 0xffff, v & 0xffff]
+    """source clock (48 bits) as three 16-bit limbs"""
+    return [(v >> 32) & 0xffff, (v >> 16) & 0xffff, v & 0xffff]
 
 
 def unlimb(l):
-    return (l[0] << 16) | l[1]
+    v = 0
+    for x in l:
+        v = (v << 16) | x
+    return v
 
 
 def need(vc):
@@ -22,6 +29,7 @@ def concretise(idx, gid, sc, order, rng):
     """driver scenario from a TLC-built scenario + arrival order (plus choices the model leaves open)"""
     s = dict(sc)
     s.pop("np", None)
+    s.pop("reg", None)
     s0 = s.pop("s0")
     s.update({"sc": idx, "g": gid, "order": order, "s0v": s0, "s0a": (s0 + 65530) % 65536,
               "afmt": "raw"})
@@ -41,8 +49,12 @@ def shift(s, trk, k):
     return s
 
 
-def long_run(idx, path, vc, ac, arate, nfr, cls, base_v, base_a, vstep=None, astep=None):
-    """arithmetically generated run of nfr video (and audio) frames for the drift clause"""
+def long_run(idx, path, vc, ac, arate, nfr, cls, base_v, base_a, vstep=None, astep=None, dv=None, da=None):
+    """arithmetically generated run of nfr video (and audio) frames for the drift clause; base_v / base_a: the
+    first DTS of the track on the source clock (48 bits, not reduced to the wire field); dv / da: PS with a
+    DTS field, PTS - DTS of the track"""
+    dts = dv is not None or da is not None
+    dv, da = dv or 0, da or 0
     frames, plan, ps = [], [], []
     vrate = 90000
     vs = vstep or (40 if path == "cust" else 3600)
@@ -69,8 +81,8 @@ def long_run(idx, path, vc, ac, arate, nfr, cls, base_v, base_a, vstep=None, ast
                         plan.append({"f": f, "us": [i + 1], "i": 1, "m": 1})
         if path == "ps":
             key = any(u["k"] == "idr" for u in fr["us"])
-            ps.append({"f": f, "m": 1 if fr["trk"] == "a" else 1 + (f % 3), "c": 1 + (f % 2), "pall": f % 2 == 0,
-                       "sys": key or f == 1, "psm": key or f == 1, "join": False})
+            ps.append({"f": f, "m": (2 if f % 5 < 2 else 1) if fr["trk"] == "a" else 1 + (f % 3), "c": 1 + (f % 2), "pall": f % 2 == 0,
+                       "sys": key or f == 1, "psm": key or f == 1, "join": False, "dts": dts})
 
     for j in range(nfr):
         if vc != "none":
@@ -80,16 +92,16 @@ def long_run(idx, path, vc, ac, arate, nfr, cls, base_v, base_a, vstep=None, ast
                 us = [{"k": k, "id": 0, "n": 1 + (j // 25) % 2} for k in need(vc)] + [{"k": "idr", "id": uid, "n": n}]
             else:
                 us = [{"k": "p", "id": uid, "n": n}]
-            add({"trk": "v", "ts": limbs(base_v + j * vs), "us": us})
+            add({"trk": "v", "ts": limbs(base_v + dv + j * vs), "d": dv, "us": us})
         if ac != "none":
-            add({"trk": "a", "ts": limbs(base_a + j * as_), "us": [{"k": "au", "id": 1 + (j % 100), "n": 9 + j // 100}]})
+            add({"trk": "a", "ts": limbs(base_a + da + j * as_), "d": da, "us": [{"k": "au", "id": 1 + (j % 100), "n": 9 + j // 100}]})
     # sentinels 2 s and 4 s after the end of the longer track
     end = max((nfr - 1) * vs * 1000 // vsec if vc != "none" else 0, (nfr - 1) * as_ * 1000 // asec if ac != "none" else 0)
     for x in (1, 2):
         if vc != "none":
-            add({"trk": "v", "ts": limbs(base_v + (end + 2000 * x) * vsec // 1000), "us": [{"k": "idr", "id": SENT + x, "n": 9}]})
+            add({"trk": "v", "ts": limbs(base_v + dv + (end + 2000 * x) * vsec // 1000), "d": dv, "us": [{"k": "idr", "id": SENT + x, "n": 9}]})
         if ac != "none":
-            add({"trk": "a", "ts": limbs(base_a + (end + 2000 * x) * asec // 1000), "us": [{"k": "au", "id": SENT + 2 + x, "n": 9}]})
+            add({"trk": "a", "ts": limbs(base_a + da + (end + 2000 * x) * asec // 1000), "d": da, "us": [{"k": "au", "id": SENT + 2 + x, "n": 9}]})
     ch = 2 if arate >= 44100 else 1
     return {"sc": idx, "g": -idx, "path": path, "vc": vc, "ac": ac, "vrate": vrate, "arate": arate,
             "asc": [2, FI.get(arate, 4), ch] if ac == "aac" else [], "sdp": [], "fmt": "annexb" if path != "rtsp" else cls,
@@ -165,7 +177,7 @@ def diag(ev):
                         want.append(("sh",))
                         have = set()
                 elif u["k"] != "aud" and u["id"] < SENT:
-                    want.append(("u", u["id"], u["n"], f["ts"]))
+                    want.append(("u", u["id"], u["n"], f["ts"], f.get("d", 0)))
         gu = [g for g in got if g[0] == "u"]
         wu = [w for w in want if w[0] == "u"]
         if any(not g[-2] if g[0] == "u" else not g[1] for g in got):
@@ -182,11 +194,31 @@ def diag(ev):
             return "SeqHeader:%s:%s:%s" % (path, trk, "missing" if nsh_g < nsh_w else "extra")
         rate = 1000 if path == "cust" else (90000 if path == "ps" or trk == "v" else ev["arate"])
         wu = wu[len(wu) - len(gu):]
-        for g, w in zip(gu, wu):
-            d_out = unlimb(g[4]) - unlimb(gu[0][4])
-            d_src = unlimb(w[3]) - unlimb(wu[0][3])
-            if abs(d_out - d_src * 1000 // rate) > 1:
-                return "TimeAffine:%s:%s:%s" % (path, trk, "rate_multiple_of_1000" if rate % 1000 == 0 else "rate_not_multiple_of_1000")
+        w = WBITS[path]
+        src = [unlimb(x[3]) for x in wu]
+        dsrc = [unlimb(x[3]) - x[4] for x in wu]
+        views = [src] + ([[v % (1 << w) for v in src], [v % (1 << w) for v in dsrc]] if w else [])
+
+        def fits(vals):
+            for g, v in zip(gu, vals):
+                d_out = (unlimb(g[4]) - unlimb(gu[0][4])) % (1 << 32)
+                d_src = v - vals[0]
+                if d_src < 0:
+                    d_out, d_src = (-d_out) % (1 << 32), -d_src
+                if abs(d_out - d_src * 1000 // rate) > 1:
+                    return False
+            return True
+        if gu and not any(fits(v) for v in views):
+            where = "below_2^32"
+            if w and src[0] >> w != src[-1] >> w:
+                where = "across_the_wrap_of_the_%d_bit_field" % w
+            elif src[0] >> 32 != src[-1] >> 32:
+                where = "across_2^32"
+            elif src[0] >> 32:
+                where = "above_2^32"
+            elif src[0] >> 31 != src[-1] >> 31:
+                where = "across_2^31"
+            return "TimeAffine:%s:%s:%s:%s" % (path, trk, "rate_multiple_of_1000" if rate % 1000 == 0 else "rate_not_multiple_of_1000", where)
     return "Conforms:%s:other" % path
 
 
@@ -202,11 +234,14 @@ def run(ctx):
     for a in E.emitted(res, "@O@"):
         orders.setdefault(json.dumps(a["par"], sort_keys=True), []).append(a["order"])
         n_orders += 1
-    ctx.log("%s: %d streams (path x codec x audio x shapes x packing x sdp x first seq), %d arrival orders; the design conforms on all"
-            % (cfg, len(scs), n_orders))
+    ctx.log("%s: %d streams (path x codec x audio x shapes x packing x sdp x first seq x timestamp regions), %d arrival orders; "
+            "the design conforms on all" % (cfg, len(scs), n_orders))
     keys = sorted(scs)
     ctx.rng.shuffle(keys)
-    want = 2600 if ctx.quick else 40000
+    # the streams of the timestamp-region sweep (a track elsewhere than at 10^9 / near 0) run in every tier and seed
+    keys.sort(key=lambda k: 0 if (scs[k]["reg"]["v"] not in ("g1", "lo") or scs[k]["reg"]["a"] not in ("g1", "lo", "same")) else 1)
+    nreg = sum(1 for k in keys if scs[k]["reg"]["v"] not in ("g1", "lo") or scs[k]["reg"]["a"] not in ("g1", "lo", "same"))
+    want = 3600 if ctx.quick else 48000
     scen = []
     # every enumerated stream once in order or perturbed (seeded choice), then more perturbed arrivals
     per = max(1, want // max(1, len(keys)))
@@ -228,7 +263,7 @@ def run(ctx):
     # timestamps in the upper half of the 32-bit range (RTP starts at a random value)
     for s in list(scen[:200 if ctx.quick else 2000:5]):
         if s["path"] == "rtsp":
-            t = shift(shift(s, "v", 0xC0000000), "a", 0x9ABC0000)
+            t = shift(shift(s, "v", 0xC0000000 - 1000000000), "a", 0x9ABC0000 - 1000000000)
             t.update({"sc": len(scen), "origin": "shifted"})
             scen.append(t)
     nfr = 120 if ctx.quick else 2000
@@ -244,12 +279,43 @@ def run(ctx):
     scen.append(long_run(len(scen), "cust", "hevc", "pcmu", 8000, nfr, "", 4294000000 - nfr * 40, 1000, astep=20))
     scen.append(long_run(len(scen), "ps", "avc", "aac", 44100, nfr, "", 900000, 900123, astep=2090))
     scen.append(long_run(len(scen), "ps", "hevc", "pcma", 8000, nfr, "", 2000000000, 2000000500, astep=1800))
+    # the same clauses across the landmarks of the clocks: the RTP field wraps in the middle of the run (every clock rate,
+    # one or both tracks, the tracks wrap at different instants), the PS clock passes 2^32 and wraps at 2^33 (PTS only,
+    # PTS + DTS), customize ms pass 2^32 and stand at a Unix-epoch value
+    nfx = 120 if ctx.quick else 600
+    half = nfx // 2
+    for r in rates:
+        scen.append(long_run(len(scen), "rtsp", "avc", "aac", r, nfx, "single", (1 << 32) - half * 3600 - 1000, (1 << 32) - (nfx // 3) * 1024 - 77))
+        scen.append(long_run(len(scen), "rtsp", "none", "aac", r, nfx, "single", 0, (1 << 32) - half * 1024 - 500))
+    for ac, r in (("pcma", 8000), ("opus", 48000)):
+        scen.append(long_run(len(scen), "rtsp", "hevc", ac, r, nfx, "fu", 5000, (1 << 32) - half * (r // 50) - 3))
+        scen.append(long_run(len(scen), "rtsp", "none", ac, r, nfx, "single", 0, (1 << 32) - half * (r // 50) - 3))
+    scen.append(long_run(len(scen), "rtsp", "avc", "none", 0, nfx, "fu", (1 << 32) - half * 3003 - 1, 0, vstep=3003))
+    scen.append(long_run(len(scen), "rtsp", "hevc", "aac", 44100, nfx, "agg", (1 << 32) - half * 3600, 123456))
+    for lm in (1 << 31, 1 << 32, 1 << 33):
+        scen.append(long_run(len(scen), "ps", "avc", "aac", 44100, nfx, "", lm - half * 3600 - 450, lm - (nfx // 3) * 2090 - 7, astep=2090))
+        scen.append(long_run(len(scen), "ps", "hevc", "pcma", 8000, nfx, "", lm - half * 3600 - 450, lm + 90000, astep=1800, dv=3600, da=0))
+        scen.append(long_run(len(scen), "ps", "avc", "pcmu", 8000, nfx, "", lm + 900000, lm - half * 1800 - 1, astep=1800, dv=0, da=900))
+        scen.append(long_run(len(scen), "cust", "avc", "aac", 44100, nfx, "", lm - half * 40 - 3, lm - (nfx // 3) * 23 - 1, astep=23))
+    scen.append(long_run(len(scen), "ps", "avc", "aac", 48000, nfx, "", (1 << 32) + 3000000000, (1 << 32) + 5000, astep=1920))
+    scen.append(long_run(len(scen), "cust", "hevc", "opus", 48000, nfx, "", 1700000000000, 1700000000007, astep=20))
+    scen.append(long_run(len(scen), "cust", "none", "aac", 48000, nfx, "", 0, (1 << 40) - half * 21 - 1, astep=21))
     for vc in ("avc", "hevc"):
         for n, mode in ((65527, 0), (65528, 0), (70000, 0), (70000, 2), (140000, 0), (140000, 3)) + \
                        (() if ctx.quick else ((131054, 0), (131055, 0), (300000, 0), (300000, 5))):
             scen.append(big_frames(len(scen), vc, n, mode))
     for k in range(1, 300 if ctx.quick else 420):
         scen.append(cut_sweep(len(scen), "avc" if k % 2 else "hevc", "aac" if k % 4 < 2 else "pcma", (k + 1) // 2 if ctx.quick else k))
+    # the long runs cost seconds each in validation: spread them evenly so that no shard of the validation gets them all
+    heavy = [x for x in scen if len(x["frames"]) > 64]
+    light = [x for x in scen if len(x["frames"]) <= 64]
+    step = max(1, len(light) // (len(heavy) + 1))
+    scen = []
+    for k, x in enumerate(light):
+        scen.append(x)
+        if (k + 1) % step == 0 and heavy:
+            scen.append(heavy.pop())
+    scen += heavy
     sp, tp = ctx.path("scen.ndjson"), ctx.path("trace.ndjson")
     E.write_ndjson(sp, scen)
     E.run_driver(ctx, "ingest", sp, tp, timeout=1500)
@@ -260,14 +326,19 @@ def run(ctx):
     ctx.cov["traces_validated_against_impl"] = nrun
     ctx.cov["evaluations"] = sum(len(r["out"]) for r in rows if r["ev"] == "Run")
     ctx.cov["distinct_nontrivial"] = len(scen)
-    ctx.cov["rule"] = ("%d of the TLC-enumerated (stream, arrival order) cases: every enumerated stream at least once, seeded "
-                       "choice among its arrival orders (in order / one overtaking inside the window / one duplicate; first "
-                       "sequence number 0 or 65533), published through the real customize-pub API, a real RTSP server session "
-                       "(ANNOUNCE/SETUP/RECORD, interleaved RTP from the independent packetiser) or PsUnpacker (PS from the "
-                       "independent writer) into a logic.Group with an HTTP-FLV subscriber; plus %d generated cases: "
-                       "timestamps shifted into the upper half of the 32-bit range, %d-frame runs at every AAC clock rate / "
-                       "G.711 / Opus / 29.97 fps for the drift clause, PS frames of 64-300 KiB over several PES packets "
-                       "(PES_packet_length 0xFFFF), PS packs cut into two RTP packets at every byte offset" % (ntlc, len(scen) - ntlc, nfr))
+    ctx.cov["rule"] = ("%d (stream, arrival order) cases over the %d TLC-enumerated streams, seeded choice among the arrival orders (in order / one "
+                       "overtaking inside the window / one duplicate; first sequence number 0 or 65533), published through the "
+                       "real customize-pub API, a real RTSP server session (ANNOUNCE/SETUP/RECORD, interleaved RTP from the "
+                       "independent packetiser) or PsUnpacker (PS from the independent writer) into a logic.Group with an HTTP-FLV "
+                       "subscriber; among them, in every tier and for every seed, all %d streams of the timestamp-region sweep "
+                       "(source clocks of 48 bits; every pair of regions for the video and the audio track: near 0, across 2^31, "
+                       "across 2^32 = wrap of the RTP field / bit 32 of the 33-bit PS clock / end of the 32-bit RTMP range for "
+                       "customize ms, above 2^32, across the 2^33 wrap of the PS clock, Unix-epoch ms; PES with PTS only and with "
+                       "PTS + DTS, audio frames in one or two PES); plus %d generated cases: timestamps shifted into the upper "
+                       "half of the 32-bit range, %d-frame runs at every AAC clock rate / G.711 / Opus / 29.97 fps for the drift "
+                       "clause, %d-frame runs across the wrap of the RTP field (every clock rate), across 2^31 / 2^32 / 2^33 of the "
+                       "PS clock and of customize ms, PS frames of 64-300 KiB over several PES packets (PES_packet_length 0xFFFF), PS packs cut "
+                       "into two RTP packets at every byte offset" % (ntlc, len(keys), nreg, len(scen) - ntlc, nfr, nfx))
     ctx.sample({k: v for k, v in scen[0].items() if k != "frames"})
     ctx.sample({k: (v if k not in ("frames", "plan", "ps") else len(v)) for k, v in scen[-1].items()})
     rej = E.validate(ctx, "Trace_Ingest", "Trace_Ingest.cfg", rows, shards=max(2, min(E.NCPU, 8)), tool_opts="-Xss512m")
@@ -285,8 +356,14 @@ def run(ctx):
                         "independent FLV / AVCDecoderConfigurationRecord / HEVCDecoderConfigurationRecord readers harness/proj",
                         "the jitter buffer itself (arrival order -> sequence order) is modelled and checked in C12 (Rtp.tla); here every "
                         "arrival order is executed against the real chain and must give a conforming output",
-                        "the first arrival of a track is its first packet; RTP timestamps do not wrap inside a run; sources are "
-                        "monotonic per track (no B-frames: lal's RTSP ingest documents pts = dts)",
+                        "the first arrival of a track is its first packet; the wire field of a clock wraps at most once inside a run; "
+                        "sources are monotonic per track (no B-frames: lal's RTSP ingest documents pts = dts; a PS DTS field runs a "
+                        "constant behind the PTS of its track)",
+                        "wrap rule: the source clock is modelled as it runs on (48 bits) and the wire carries it modulo 2^32 (RTP) / "
+                        "2^33 (PES PTS, DTS) / not reduced (AvPacket int64 ms); per track the output must be the clock in ms up to one "
+                        "constant modulo 2^32 (RTMP timestamps have 32 bits) in ONE of the views: the clock as it runs on (the wrap of "
+                        "the field is invisible), or the wire field itself (the output repeats the field's own jump of -2^32 resp. "
+                        "-2^33 ticks at its wrap: the discontinuity is the source's); a jump anywhere else, or of another size, fits neither",
                         "the HTTP-FLV observer is admitted at once (ShouldWaitVideoKeyFrame cleared): subscriber admission is C01/C02",
                         "RTSP: interleaved (TCP) transport only; the UDP transport feeds the same BaseInSession.handleRtpPacket",
                         "PS: PsUnpacker + AvPacket2RtmpRemuxer wired as logic.Group.StartRtpPub does, without the UDP/TCP socket loop of "
